@@ -37,6 +37,19 @@ func runC08(r *Run) {
 	}
 	r.checkHashTable(P)
 	r.checkCanonOnly(P)
+	// the canonical form must not depend on the member order of the input
+	if tr := r.fn(P, pkgJCS, "Transform"); tr != nil {
+		var fns []*ssa.Function
+		var collect func(f *ssa.Function)
+		collect = func(f *ssa.Function) {
+			fns = append(fns, f)
+			for _, a := range f.AnonFuncs {
+				collect(a)
+			}
+		}
+		collect(tr)
+		r.checkSortKey(P, tr, fns)
+	}
 	if f := r.fn(P, pkgHashing, "IsValidModelMultihash"); f != nil {
 		r.requireSucc(P+".alg.from.hash", "if this fails, a model is accepted against a multihash that is not its hash under the algorithm the multihash names", f, core.Ctx{}, "",
 			"ok(hashing.GetMultihashCode($1))",
